@@ -10,6 +10,7 @@ package rosmar
 
 import (
 	"sync"
+	"sync/atomic"
 	"time"
 )
 
@@ -19,6 +20,7 @@ type expiryManager struct {
 	timer          *time.Timer // Schedules expiration of docs
 	nextExp        *uint32     // Timestamp when expTimer will run (0 if never)
 	expirationFunc func()      // Function to call when timer expires
+	stopped        atomic.Bool // Set by stop(): from then on no timer is armed
 }
 
 func newExpirationManager(expiractionFunc func()) *expiryManager {
@@ -32,8 +34,12 @@ func newExpirationManager(expiractionFunc func()) *expiryManager {
 
 // stop stops existing timers and waits for any expiration processes to complete
 func (e *expiryManager) stop() {
+	if e.stopped.Load() {
+		return // already stopped: nothing is running or armed, and no lock needs to be taken
+	}
 	e.mutex.Lock()
 	defer e.mutex.Unlock()
+	e.stopped.Store(true)
 	if e.timer != nil {
 		e.timer.Stop()
 	}
@@ -64,6 +70,9 @@ func (e *expiryManager) _setNext(exp uint32) {
 	if exp == 0 {
 		e.timer = nil
 		return
+	}
+	if e.stopped.Load() {
+		return // the bucket's store is being shut down
 	}
 	dur := expDuration(exp)
 	if dur < 0 {
